@@ -12,3 +12,9 @@ From JP Require Import Base Gen.Tables Spec.TableSpec.
 Theorem C04_table_order : table_order_ok gen_lbp gen_projection_stop = true.
 Proof. vm_compute. reflexivity. Qed.
 Print Assumptions C04_table_order.
+
+(** The documented table the reference parser runs on has the documented order too
+    (so the two tables order every pair of tokens the same way). *)
+Theorem C04_spec_table_order : table_order_ok spec_lbp spec_stop = true.
+Proof. exact spec_table_order. Qed.
+Print Assumptions C04_spec_table_order.
